@@ -35,6 +35,10 @@ pub fn parse_binary_float(static_: bool, embedded: bool, input: TokenStream) -> 
 
     // allow one underscore prefix
     let value_str = value_str.strip_prefix('_').unwrap_or(value_str);
+    // the sign has been consumed above, the parser must not find another one
+    if value_str.starts_with('-') || value_str.starts_with('+') {
+        panic_fbig_syntax()
+    }
 
     // generate expressions
     type FBin = FBig; // use the default generic arguments
